@@ -705,6 +705,7 @@ def build_unit(tmpl_path: str, repo: str, inline=None, pull_consts=None):
                 rewrites=[], template=tmpl_path)
     srccache = {}
     default_rw = []
+    late_rw = []
 
     def load(rel):
         if rel not in srccache:
@@ -769,6 +770,12 @@ def build_unit(tmpl_path: str, repo: str, inline=None, pull_consts=None):
             meta['properties'] = d.split()[1:]
         elif d.startswith('min-verified '):
             meta['min_verified'] = int(d.split()[1])
+        elif d.startswith('default-rw-late '):
+            # like default-rw, but applied after every other rewrite of the fn (generic shapes that must not pre-empt specific ones)
+            arg = d[len('default-rw-late '):].strip()
+            if 'min=' not in arg.rsplit('/', 1)[-1]:
+                arg += ' min=0'
+            late_rw.append(arg)
         elif d.startswith('default-rw '):
             # a rewrite applied (min=0) to every fn block that follows in this unit (e.g. R6 async/.await removal)
             arg = d[len('default-rw '):].strip()
@@ -803,8 +810,8 @@ def build_unit(tmpl_path: str, repo: str, inline=None, pull_consts=None):
             if i >= n:
                 raise ExtractError(f'{tmpl_path}: unterminated block for {b}')
             src, m = load(rel)
-            if is_fn and default_rw:
-                subs = subs + [['rw', a_, [], i + 1] for a_ in default_rw]   # unit-wide defaults run after the fn's own rewrites
+            if is_fn and (default_rw or late_rw):
+                subs = subs + [['rw', a_, [], i + 1] for a_ in default_rw + late_rw]   # unit-wide defaults run after the fn's own rewrites
             if is_fn:
                 ctx_ = None if a in ('-', '') else a
                 if kv.get('fallback'):
